@@ -155,7 +155,7 @@ def respond (line : String) : String :=
     | _, _ => "(bad-request aggregate)"
   | some (.atom "latex" :: .atom showNonRoot :: r :: _) =>
     -- entries of the rendering, as (section key) pairs, and the formatter chosen for every input parameter
-    match Routine.ofSexp r with
+    match Routine.ofSexpWith false r with
     | some r =>
       let es := latexEntries r (showNonRoot == "1")
       Sexp.toString (l [a "ok", l (es.map fun e => l [a (e.sec.name.replace " " "_"), a e.key]),
